@@ -55,6 +55,10 @@ def run(ctx, pid):
         # growth module: the identity lifecycle (Lifecycle.tla: status x period x transaction type x delegation / stake / penalty
         # situation, edge cover realised on real chains, also judged by the ledger / registry / replica clause sets)
         growth = vlib.run_extra(ctx, "extra_life", quick)
+    if pid == "C04":
+        # growth module: the epoch reward distribution (Rewards.tla: who is entitled to which category, conservation and category
+        # shares with exact arithmetic, population shapes enumerated by TLC and run through the real rewardValidIdentities)
+        growth = vlib.run_extra(ctx, "extra_rewards", quick)
     rows = vlib.read_ndjson(trace)
     blocks = [x for x in rows if x.get("ev") == "Block" and not x.get("refused")]
     crafted = [x for x in rows if x.get("ev") == "Crafted"]
@@ -88,7 +92,7 @@ def run(ctx, pid):
            "traces_validated_against_impl": stats.get("histories", 0),
            "blocks": len(blocks), "txs_included": included, "single_tx_blocks": single, "epoch_finishing_blocks": epochs,
            "replay_attempts_crafted": len(crafted), "crafted_by_kind": dict(collections.Counter(x.get("what") for x in crafted)),
-           "relationship_scenarios": rel_stats, "contract_stratum": cstratum, "identity_lifecycle": growth,
+           "relationship_scenarios": rel_stats, "contract_stratum": cstratum, ("identity_lifecycle" if pid == "C05" else "epoch_rewards"): growth,
            "tx_types_included": sorted({t["type"] for x in blocks for t in (x.get("txs") or [])}),
            "samples": [{k: blocks[len(blocks) // 3].get(k) for k in ("h", "kind", "flags", "proposer", "txs", "epochLen")}],
            "rule": "seeded random histories on real chains (all plain tx types, targets in every relationship to the signer, amounts on the "
